@@ -242,6 +242,51 @@ pub fn derive(rng: &mut Rng, a: &HV, s2: usize) -> HV {
     b
 }
 
+/// W4 "chunk chains": two block hashes built from the same chunks of exactly L symbols (L around the
+/// 7-gram threshold: 5, 6, 7, 8), with single-symbol separators inserted / omitted / replaced between
+/// the chunks.  For L = 6 the strings have a long common subsequence but NO common 7-gram.
+pub fn gen_chain_pair(rng: &mut Rng, cap_b: usize) -> (Vec<u8>, Vec<u8>) {
+    let l = *rng.pick(&[6usize, 6, 6, 5, 7, 8]);
+    let k = rng.urange(2, 64 / (l + 1));
+    // distinct symbols for the chunks, separators from the rest of the alphabet
+    let mut perm: Vec<u8> = (0..64).collect();
+    rng.shuffle(&mut perm);
+    let chunk_syms = &perm[..(k * l).min(56)];
+    let seps = &perm[56..];
+    let mut a: Vec<u8> = Vec::new();
+    let mut b: Vec<u8> = Vec::new();
+    let mode = rng.below(4);
+    for c in 0..k {
+        for j in 0..l {
+            let s = chunk_syms[(c * l + j) % chunk_syms.len()];
+            a.push(s);
+            b.push(s);
+        }
+        if c + 1 < k {
+            match mode {
+                0 => a.push(seps[c % seps.len()]),                       // separator only in a
+                1 => b.push(seps[c % seps.len()]),                       // separator only in b
+                2 => {
+                    // alternating sides
+                    if c % 2 == 0 {
+                        a.push(seps[c % seps.len()]);
+                    } else {
+                        b.push(seps[c % seps.len()]);
+                    }
+                }
+                _ => {
+                    // different separators on both sides (substitution)
+                    a.push(seps[c % seps.len()]);
+                    b.push(seps[(c + 1) % seps.len()]);
+                }
+            }
+        }
+    }
+    a.truncate(64);
+    b.truncate(cap_b);
+    (a, b)
+}
+
 pub fn syms_to_text(v: &[u8]) -> Vec<u8> {
     v.iter().map(|&c| b64chr(c)).collect()
 }
